@@ -241,11 +241,15 @@ def translate(pins: dict | None = None):
         fail("JobDescription.__init__: signature changed", init)
     got = [src(x) for x in body_nodoc(init)]
     key_fields = {"self.task_name = job.task.fullname": "KFullname", "self.task_name = job.task.name": "KName"}
-    if len(got) != 3 or got[0] not in key_fields or got[1:] != [
-            "self.options = job.get_options()",
-            "self.key = self.task_name + ' ' + str(sorted(self.options.items()))"]:
+    key_shapes = {"self.key = self.task_name + ' ' + str(sorted(self.options.items()))": "OItems",
+                  "self.key = f'{self.task_name} {sorted(self.options.items())}'": "OItems",
+                  "self.key = self.task_name + ' ' + str(sorted(self.options))": "ONames",
+                  "self.key = f'{self.task_name} {sorted(self.options)}'": "ONames"}
+    if len(got) != 3 or got[0] not in key_fields or got[1] != "self.options = job.get_options()" \
+            or got[2] not in key_shapes:
         fail(f"JobDescription.__init__: unrecognised body {got!r}", init)
     key_task = key_fields[got[0]]
+    key_opts = key_shapes[got[2]]
     if [src(x) for x in body_nodoc(find_func(ja, "__hash__", "JobDescription"))] != ["return hash(self.key)"]:
         fail("JobDescription.__hash__: must hash the key")
     if [src(x) for x in body_nodoc(find_func(ja, "__eq__", "JobDescription"))] != [
@@ -312,7 +316,8 @@ def translate(pins: dict | None = None):
     v.append("  env_vars := [" + "; ".join(cs(x) for x in env_vars) + "];")
     v.append(f"  key_task := {key_task};  (* JobDescription.task_name *)")
     v.append(f"  stage_input := {stage_input};  (* get_oneshot_command, single-job input staging *)")
-    v.append(f"  clear_output := {clear_output}  (* oneshot_command, removal of a previous output file *)")
+    v.append(f"  clear_output := {clear_output};  (* oneshot_command, removal of a previous output file *)")
+    v.append(f"  key_opts := {key_opts}  (* JobDescription.key, option component *)")
     v.append("|}.")
     v.append("(* The theorems of Props/C32.v are about [shipped] (the code as it is, with the known defect of")
     v.append("   C32_stale_output_no_cache_refuted) and [fixed] (previous output always removed); this is the tie. *)")
@@ -322,7 +327,7 @@ def translate(pins: dict | None = None):
     else:
         v.append("Lemma C32_tie : gen = shipped.")
     v.append("Proof. vm_compute. reflexivity. Qed.")
-    return "\n".join(v) + "\n", got_pins, dict(cfg, env_vars=env_vars, key_task=key_task, stage_input=stage_input, clear_output=clear_output)
+    return "\n".join(v) + "\n", got_pins, dict(cfg, env_vars=env_vars, key_task=key_task, stage_input=stage_input, clear_output=clear_output, key_opts=key_opts)
 
 
 if __name__ == "__main__":
